@@ -2,7 +2,7 @@
    baize/wsgi/responses.py FileResponse, baize/asgi/responses.py FileResponse).
    A file is a list of bytes; positions and sizes are nat (they index that list). *)
 From Coq Require Import List NArith ZArith Bool Arith.
-From Baize Require Import Lib.Wire C03.Model.
+From Baize Require Import Lib.Wire Lib.Order C03.Model.
 Import ListNotations.
 
 Definition bytes := list N.
@@ -57,7 +57,6 @@ Definition multipart_length (b ct : bytes) (size : nat) (ranges : list (nat * na
 
 (* ---------- the Range / If-Range decision ---------- *)
 
-Definition bytes_eqb := list_N_eqb.
 
 Definition judge_if_range (r : file_req) (v : bytes) : bool :=
   bytes_eqb v (fr_etag r) || bytes_eqb v (fr_lastmod r).
